@@ -55,7 +55,7 @@ ASSUMPTIONS = ["CPython iterates a small set by slot index, so n keys with force
                "tier, every length-3 substring of each sensitive token as keyword; not all contents",
                "blank means the empty string, as in the code; whitespace-only lines count as non-blank",
                "bounded: no counterexample within the stated bounds, nothing more"]
-BOUNDS = {"quick": {"orders_per_case": "all n! (n <= 6)", "hash_seeds": 16, "generated_cases": "substrings + 9x9 kinds x 4 glues + same-text + substitutes",
+BOUNDS = {"quick": {"orders_per_case": "all n! (n <= 6); generated adjacent pairs: all orders of the <= 4 obfuscators involved", "hash_seeds": 16, "generated_cases": "substrings + 9x9 kinds x 4 glues + same-text + substitutes",
                     "inside_set_orders": "all n! per set built via set() in the obfuscator modules (n <= 5)", "max_lines": 4, "line_kinds": 6, "clean_content_configs": 60, "clean_file_configs": 5,
                     "provider_configs": 3},
           "thorough": {"orders_per_case": "all n! (n <= 6)", "hash_seeds": 64, "generated_cases": "substrings + 9x9 kinds x 7 glues + same-text + substitutes",
@@ -218,7 +218,10 @@ def generated(tier):
     for k1, t1 in KIND_TOKENS:
         for k2, t2 in KIND_TOKENS:
             for g in GLUES[tier]:
-                out.append(_c("gen:adjacent:%s+%s" % (k1, k2), ["x %s%s%s y" % (t1, g, t2)], ["KWX"], gen=True))
+                c = _c("gen:adjacent:%s+%s" % (k1, k2), ["x %s%s%s y" % (t1, g, t2)], ["KWX"], gen=True)
+                if tier == "quick":      # quick bound: permute the obfuscators of the two kinds + keyword + password (<= 4!)
+                    c["permute"] = sorted(set([OBF_OF_KIND[k1], OBF_OF_KIND[k2], "keyword", "password"]))
+                out.append(c)
     for k, t in KIND_TOKENS:
         if k in ("kw", "pw"):
             continue
@@ -247,10 +250,23 @@ def _fp(out):
     return json.dumps(out, sort_keys=True)
 
 
-def forced_table(case):
-    """All n! forced orders of one case -> list of run_forced results, in lexicographic order of the forced order."""
+OBF_OF_KIND = {"fqdn": "hostname", "short": "hostname", "otherhost": "hostname", "ip": "ip", "mac": "mac", "dmac": "mac",
+               "ipv6": "ipv6", "pw": "password", "kw": "keyword"}
+
+
+def forced_orders(case):
+    """All n! orders of the applied obfuscator names - or, for a case that carries "permute" (quick tier,
+    generated adjacent pairs), all orders of those names followed by the others in sorted position."""
     names = lib.enabled_names(case)
-    return names, [lib.run_forced(case, list(p)) for p in itertools.permutations(names)]
+    sub = [n for n in names if n in case["permute"]] if case.get("permute") else names
+    rest = [n for n in names if n not in sub]
+    return names, [list(p) + rest for p in itertools.permutations(sub)]
+
+
+def forced_table(case):
+    """Every forced order of one case -> list of run_forced results, in lexicographic order of the forced order."""
+    names, orders = forced_orders(case)
+    return names, [lib.run_forced(case, o) for o in orders]
 
 
 def measured_pairs(runs):
@@ -265,7 +281,7 @@ def measured_pairs(runs):
             o2 = list(o)
             o2[i], o2[i + 1] = o2[i + 1], o2[i]
             o2 = tuple(o2)
-            if table[o2] != table[o]:
+            if o2 in table and table[o2] != table[o]:
                 pairs.add("+".join(sorted((o[i], o[i + 1]))))
                 if witness is None:
                     witness = [list(o), list(o2)]
@@ -359,7 +375,8 @@ def run_a(unit, tier, res):
         res.transitions += sum(r["calls"] for r in runs)
         res.stat("A_cases")
         res.stat("A_forced_executions", len(runs))
-        res.stat("A_forced_orders_requested", math.factorial(len(names)))
+        res.stat("A_forced_orders_requested", len(runs))
+        res.stat("A_cases_with_all_factorial_orders", 1 if len(runs) == math.factorial(len(names)) else 0)
         res.stat("A_distinct_orders_observed", len(obs_orders))
         res.stat("A_executions_where_code_followed_forced_order", followed)
         res.maxi("A_max_obfuscators_permuted", len(names))
@@ -438,13 +455,16 @@ def run_a(unit, tier, res):
 # Part B
 # ================================================================================================
 
-KINDS = "OSXNBW"
+BASE_KINDS = "OSXNBW"
+EXTRA_KINDS = "DF"        # D: untagged line occurring several times; F: str.splitlines() separators inside one line
 TAG = re.compile(r"#T(\d+)#")
 KW = "SECRETKW"
+DUP = "ALLOW DUPLICATE line without a tag"
+SEPS = "\x0c\x1c\x1d\x1e\x85  \x0b"      # ordinary characters inside a line for everything but str.splitlines
 
 
 def build_lines(syms):
-    """Line i of kind k; every non-blank, non-whitespace line carries the unique tag #T<i>#."""
+    """Line i of kind k; every non-blank, non-whitespace line except D carries the unique tag #T<i>#."""
     out = []
     for i, k in enumerate(syms):
         if k == "O":
@@ -459,13 +479,17 @@ def build_lines(syms):
             out.append("")
         elif k == "W":
             out.append(" ")
+        elif k == "D":
+            out.append(DUP)
+        elif k == "F":
+            out.append("#T%d# ALLOW " % i + "".join("p%d%s" % (j, ch) for j, ch in enumerate(SEPS)) + "end")
         else:
             raise ValueError(k)
     return out
 
 
 def in_tokens(syms):
-    return ["B" if k == "B" else "W" if k == "W" else "T%d" % i for i, k in enumerate(syms)]
+    return ["B" if k == "B" else "W" if k == "W" else "D" if k == "D" else "T%d" % i for i, k in enumerate(syms)]
 
 
 def out_tokens(lines):
@@ -480,6 +504,8 @@ def out_tokens(lines):
             toks.append("B")
         elif len(tags) == 1:
             toks.append("T%s" % tags[0])
+        elif not tags and l == DUP:
+            toks.append("D")
         elif not tags and l.strip() == "":
             toks.append("W")
         else:
@@ -493,7 +519,9 @@ def is_subsequence(small, big):
 
 
 def check_tokens(syms, out_lines):
-    """Order and derivation oracle on one output (list of lines without line terminators)."""
+    """Order and derivation oracle on one output (list of lines without line terminators): the output tokens
+    embed into the input tokens as a subsequence - order kept, one input line per output line, never more
+    lines than the input, nothing invented; untagged duplicates are compared through the embedding."""
     v = []
     itoks = in_tokens(syms)
     otoks = out_tokens(out_lines)
@@ -506,7 +534,12 @@ def check_tokens(syms, out_lines):
     return v
 
 
-CC_PATTERNS = {"plain": ["REDACTME"], "regex": {"regex": ["REDACT[A-Z]+"]}, "none": None}
+def nonblank(lines):
+    """blank = the empty string (the code's notion; whitespace-only lines count as non-blank: DESIGN C10, not-demanded)."""
+    return any(l != "" for l in lines if isinstance(l, str))
+
+
+CC_PATTERNS = {"plain": ["REDACTME"], "regex": {"regex": ["REDACT[A-Z]+"]}, "none": None, "empty-list": []}
 CC_ALLOW = [None, {"ALLOW": 10000}, {"ALLOW": 1}, {"ALLOW": 2}, {"ALLOW": 1, "other": 1}]
 
 
@@ -525,13 +558,22 @@ def cc_configs():
         out.append({"patterns": pk, "allow": None, "no_redact": no_redact, "obfuscate": False, "keywords": False, "no_obf": ["password"]})
         out.append({"patterns": pk, "allow": None, "no_redact": no_redact, "obfuscate": True, "no_obf": ALL})
         out.append({"patterns": pk, "allow": None, "no_redact": no_redact, "obfuscate": True, "no_obf": ["password", "mac"]})
+    # falsy-but-real configuration values: an EMPTY allow-list (nothing is allowed), an empty pattern list, an empty exemption list
+    out.append({"patterns": "plain", "allow": {}, "no_redact": False, "obfuscate": True})
+    out.append({"patterns": "none", "allow": {}, "no_redact": True, "obfuscate": False, "keywords": False})
+    out.append({"patterns": "empty-list", "allow": None, "no_redact": False, "obfuscate": True, "no_obf": []})
     return out
 
 
+CORE_CC = [{"patterns": "plain", "allow": al, "no_redact": False, "obfuscate": obf}
+           for al in (None, {"ALLOW": 10000}, {"ALLOW": 1}, {"ALLOW": 2}) for obf in (True, False)]
 CF_CONFIGS = [{"patterns": "plain", "allow": al, "no_redact": False, "obfuscate": True} for al in CC_ALLOW[:4]] + \
              [{"patterns": "none", "allow": None, "no_redact": False, "obfuscate": True}]
-WR_CONFIGS = [{"spec": "plain", "allow": None}, {"spec": "filt", "allow": {"ALLOW": 10000}},
-              {"spec": "filt", "allow": {"ALLOW": 2}}, {"spec": "ds", "allow": None}]
+WR_CONFIGS = [{"spec": "plain", "allow": None}, {"spec": "ds", "allow": None},
+              {"spec": "filt", "allow": {"ALLOW": 2}}, {"spec": "cmd", "allow": None},
+              {"spec": "cmdfilt", "allow": {"ALLOW": 2}}, {"spec": "filt", "allow": {"ALLOW": 10000}}]
+SUBPROCESS_SPECS = ("filt", "cmd", "cmdfilt")      # their loader is shell_out(...).splitlines(): kind F is not for them
+B_CLEANER = {"patterns": "plain", "obfuscate": True}
 
 
 def b_cleaner(cfg):
@@ -540,143 +582,197 @@ def b_cleaner(cfg):
 
 
 def check_cc(case):
-    """clean_content on a list of lines."""
+    """clean_content on a list of lines; the same list / allow-list OBJECTS again with a second fresh cleaner
+    (same input, same configuration -> same output: nothing may be mutated in place); the content again on the
+    SAME cleaner (second spec of one collection); the single-string entry point for one-line contents."""
     cfg, syms = case["cfg"], case["syms"]
     lines = build_lines(syms)
+    kw = dict(no_redact=cfg["no_redact"], no_obfuscate=cfg.get("no_obf"))
+    shared_lines = list(lines)
+    shared_allow = None if cfg["allow"] is None else dict(cfg["allow"])
     c = b_cleaner(cfg)
-    out = c.clean_content(list(lines), no_redact=cfg["no_redact"], allowlist=cfg["allow"], no_obfuscate=cfg.get("no_obf"))
+    out = c.clean_content(shared_lines, allowlist=shared_allow, **kw)
     v = []
     if not isinstance(out, list):
         return [("derivation:one-input-line-per-output-line", "a list of lines", {"output": repr(out)})], {"nt": True, "oc": "cc:notlist"}
     v += check_tokens(syms, out)
-    if out and not any(l != "" for l in out if isinstance(l, str)):
+    if out and not nonblank(out):
         v.append(("emptiness:clean_content-returns-empty-list", [], {"output": out}))
+    # -- same objects, second fresh cleaner ----------------------------------------------------------
+    out2 = b_cleaner(cfg).clean_content(shared_lines, allowlist=shared_allow, **kw)
+    if out2 != out:
+        v.append(("determinism:same-input-twice", {"second_output": out}, {"second_output": out2, "input_list_now": shared_lines,
+                                                                            "allowlist_now": shared_allow}))
+    # -- same cleaner, the content once more (it is the cleaner of a whole collection) ----------------
+    out3 = c.clean_content(list(lines), allowlist=None if cfg["allow"] is None else dict(cfg["allow"]), **kw)
+    if isinstance(out3, list):
+        v += [x for x in check_tokens(syms, out3) if x not in v]
+        if out3 and not nonblank(out3) and not any(x[0].startswith("emptiness") for x in v):
+            v.append(("emptiness:clean_content-returns-empty-list", [], {"output": out3, "call": "second on the same cleaner"}))
+    # -- single string -------------------------------------------------------------------------------
+    if len(lines) == 1:
+        r = b_cleaner(cfg).clean_content(lines[0], allowlist=None if cfg["allow"] is None else dict(cfg["allow"]), **kw)
+        if not (r is None or isinstance(r, str)):
+            v.append(("derivation:string-path", "None or one string", {"output": repr(r)}))
+        else:
+            as_list = [] if r is None else [r]
+            v += [x for x in check_tokens(syms, as_list) if x not in v]
+            want = as_list if nonblank(as_list) else []
+            if want != out:
+                v.append(("derivation:string-path", {"clean_content([line])": out}, {"clean_content(line)": r}))
     return v, {"nt": out != lines, "oc": "cc:%dof%d" % (len(out), len(lines))}
 
 
 def check_cf(case, root):
-    """clean_file on a real file (lines end with a line feed; an empty input file is outside the domain:
-    the statement is about a spec *left* with nothing after cleaning)."""
+    """clean_file on a real file (every line ends with a line feed; the empty file is the content of no lines).
+    Afterwards the file is gone, or it holds at least one non-empty line and embeds into the input."""
     cfg, syms = case["cfg"], case["syms"]
     lines = build_lines(syms)
     path = os.path.join(root, "cf.txt")
-    with open(path, "w") as fh:
-        fh.write("".join(l + "\n" for l in lines))
-    raw = [l + "\n" for l in lines]
-    ref = b_cleaner(cfg).clean_content(list(raw), no_redact=cfg["no_redact"], allowlist=cfg["allow"])
+    raw_text = "".join(l + "\n" for l in lines)
+    with open(path, "w", newline="") as fh:
+        fh.write(raw_text)
     b_cleaner(cfg).clean_file(path, no_redact=cfg["no_redact"], allowlist=cfg["allow"])
     v = []
+    feats = {}
     exists = os.path.exists(path)
+    data = None
     if exists:
-        with open(path) as fh:
+        with open(path, newline="") as fh:
             data = fh.read()
         os.remove(path)
-        if data == "":
-            v.append(("emptiness:clean_file-removes-file", "file removed (not stored empty)", {"file": "exists, 0 bytes"}))
+        got = data.split("\n")
+        if got and got[-1] == "":
+            got.pop()
+        if not nonblank(got):
+            # left: what the stored file consists of although no non-blank line is left
+            feats["left"] = ("empty-input-file" if syms == "" else "zero-bytes" if data == "" else "only-empty-lines")
+            v.append(("emptiness:clean_file-removes-file", "file removed: no non-blank line is left",
+                      {"file": "exists", "content": data[:200], "input": raw_text[:200]}))
         else:
-            got = data.split("\n")
-            if got and got[-1] == "":
-                got.pop()
             v += check_tokens(syms, got)
-        if ref == []:
-            v.append(("emptiness:clean_file-removes-file", "file removed: nothing is left after cleaning",
-                      {"file": "exists", "content": data[:200]}))
-    return v, {"nt": (not exists) or data != "".join(raw), "oc": "cf:%s" % ("kept" if exists else "removed")}
+            # a line that survives only when its terminator is counted as content is not a non-blank line;
+            # a surviving tagged line proves the file is rightly kept.  Removal itself is decided by the reference below.
+            ref = b_cleaner(cfg).clean_content([l + "\n" for l in lines], no_redact=cfg["no_redact"], allowlist=cfg["allow"])
+            if ref == []:
+                feats["left"] = "should-be-removed"
+                v.append(("emptiness:clean_file-removes-file", "file removed: clean_content of its lines is []",
+                          {"file": "exists", "content": data[:200]}))
+    return v, {"nt": (not exists) or data != raw_text, "oc": "cf:%s" % ("kept" if exists else "removed"), "features": feats}
+
+
+def _judge_write(res, syms, what):
+    """Oracle for one write attempt (lib.attempt_write result)."""
+    status, exc, text = res
+    v = []
+    if status == "raised":
+        if text is not None:
+            v.append(("emptiness:write-raises-and-stores-nothing", "no file when the spec is dropped (%s)" % what,
+                      {"raised": exc, "file": text[:200]}))
+    elif status == "nothing":
+        v.append(("emptiness:write-raises-and-stores-nothing", "a file, or the content error (%s)" % what, {"file": None, "raised": None}))
+    else:
+        got = text.split("\n")
+        if not nonblank(got):
+            v.append(("emptiness:write-raises-and-stores-nothing",
+                      "ContentException and no file: no non-blank line is left (%s)" % what, {"raised": None, "file": text[:200]}))
+        else:
+            v += check_tokens(syms, got)
+    return v
 
 
 def check_wr(case, root):
-    """write() of a provider under a HostContext, then Hydration.dehydrate of a fresh provider."""
-    from insights.core import dr
-    from insights.core.context import HostContext
-    from insights.core.exceptions import ContentException
+    """A provider under a HostContext: write(); write() of the SAME provider once more (persisted twice);
+    then a fresh provider whose .content is looked at before Hydration.dehydrate persists it."""
+    from insights.core.exceptions import ContentException, CalledProcessError
     from insights.core.serde import Hydration
     cfg, syms = case["cfg"], case["syms"]
     lines = build_lines(syms)
-    sp = lib.specs()
+    sp = lib.make_specs(cfg["allow"], one_call=True)
     indir = os.path.join(root, "in")
-    os.makedirs(os.path.join(indir, "c10"), exist_ok=True)
-    comp = sp["ds"] if cfg["spec"] == "ds" else getattr(sp["impl"], cfg["spec"])
-    if cfg["spec"] != "ds":
-        with open(os.path.join(indir, "c10", cfg["spec"] + ".txt"), "w") as fh:
-            fh.write("".join(l + "\n" for l in lines))
     v = []
 
-    def provider():
-        b = dr.Broker()
-        b[HostContext] = HostContext(root=indir)
-        b["cleaner"] = b_cleaner({"patterns": "plain", "obfuscate": True})
-        b["verif_c10_content"] = lines
-        p = comp(b)
-        b[comp] = p
-        return b, p
+    def add(vs):
+        for x in vs:
+            if x not in v:
+                v.append(x)
 
-    with lib.filters_set(cfg["allow"]):
-        # -- direct write ------------------------------------------------------------------------
-        dst = os.path.join(root, "direct", "w.txt")
-        shutil.rmtree(os.path.dirname(dst), ignore_errors=True)
-        _, p = provider()
-        raised = None
-        try:
-            p.write(dst)
-        except ContentException as ex:
-            raised = ex
-        stored = None
-        if os.path.exists(dst):
-            with open(dst) as fh:
-                stored = fh.read()
-        if raised is not None:
-            if stored is not None:
-                v.append(("emptiness:write-raises-and-stores-nothing", "no file when the content error is raised",
-                          {"file": stored[:200]}))
+    # -- direct write, twice ---------------------------------------------------------------------------
+    ddir = os.path.join(root, "direct")
+    shutil.rmtree(ddir, ignore_errors=True)
+    _, comp, p = lib.make_provider(sp, cfg["spec"], indir, lines, lib_cleaner_case())
+    first = lib.attempt_write(p, os.path.join(ddir, "w1.txt"))
+    add(_judge_write(first, syms, "first write"))
+    second = lib.attempt_write(p, os.path.join(ddir, "w2.txt"))
+    add(_judge_write(second, syms, "second write of the same provider"))
+    shutil.rmtree(ddir, ignore_errors=True)
+    # -- content looked at, then dehydrate ---------------------------------------------------------------
+    out = os.path.join(root, "out")
+    shutil.rmtree(out, ignore_errors=True)
+    b, comp, p = lib.make_provider(sp, cfg["spec"], indir, lines, lib_cleaner_case())
+    try:
+        list(p.content)
+    except (ContentException, CalledProcessError):
+        pass
+    Hydration(root=out).dehydrate(comp, b)
+    files = lib.list_files(out)
+    data_files = [f for f in files if not f.startswith("meta_data" + os.sep)]
+    meta = [f for f in files if f.startswith("meta_data" + os.sep)]
+    results = None
+    for m in meta:
+        with open(os.path.join(out, m)) as fh:
+            results = json.load(fh).get("results")
+    contents = {}
+    for f in data_files:
+        with open(os.path.join(out, f), newline="") as fh:
+            contents[f] = fh.read()
+    first_kept = first[0] == "stored" and nonblank(first[2].split("\n"))
+    if not first_kept:
+        # nothing non-blank is left: no file, no results entry
+        if data_files or results:
+            add([("emptiness:dehydrate-no-file-no-results", {"data_files": [], "results": None},
+                  {"data_files": contents, "results": results})])
+    else:
+        if len(data_files) != 1 or not results or not all(nonblank(t.split("\n")) for t in contents.values()):
+            add([("emptiness:dehydrate-no-file-no-results",
+                  "exactly one data file with a non-blank line and a results entry pointing to it",
+                  {"data_files": contents, "results": results})])
         else:
-            if stored is None:
-                v.append(("emptiness:write-raises-and-stores-nothing", "a file, or the content error", {"file": None, "raised": None}))
-            else:
-                got = stored.split("\n")
-                if not any(l != "" for l in got):
-                    v.append(("emptiness:write-raises-and-stores-nothing",
-                              "ContentException and no file: no non-blank line is left",
-                              {"raised": None, "file": stored[:200]}))
-                else:
-                    v += check_tokens(syms, got)
-        # -- dehydrate ---------------------------------------------------------------------------
-        out = os.path.join(root, "out")
-        shutil.rmtree(out, ignore_errors=True)
-        b, p = provider()
-        Hydration(root=out).dehydrate(comp, b)
-        files = lib.list_files(out)
-        data_files = [f for f in files if not f.startswith("meta_data" + os.sep)]
-        meta = [f for f in files if f.startswith("meta_data" + os.sep)]
-        results = None
-        for m in meta:
-            with open(os.path.join(out, m)) as fh:
-                results = json.load(fh).get("results")
-        contents = {}
-        for f in data_files:
-            with open(os.path.join(out, f)) as fh:
-                contents[f] = fh.read()
-        nonblank = dict((f, any(l != "" for l in t.split("\n"))) for f, t in contents.items())
-        if raised is not None or (stored is not None and not any(l != "" for l in stored.split("\n"))):
-            # nothing non-blank is left: no file, no results entry
-            if data_files or results:
-                v.append(("emptiness:dehydrate-no-file-no-results", {"data_files": [], "results": None},
-                          {"data_files": contents, "results": results}))
-        else:
-            if len(data_files) != 1 or not results or not all(nonblank.values()):
-                v.append(("emptiness:dehydrate-no-file-no-results",
-                          "exactly one data file with a non-blank line and a results entry pointing to it",
-                          {"data_files": contents, "results": results}))
-            else:
-                for f, t in contents.items():
-                    v += [x for x in check_tokens(syms, t.split("\n")) if x not in v]
-        shutil.rmtree(out, ignore_errors=True)
-        shutil.rmtree(os.path.dirname(dst), ignore_errors=True)
-    kept = raised is None
-    return v, {"nt": (not kept) or stored != "\n".join(lines), "oc": "wr:%s:%s" % (cfg["spec"], "stored" if kept else "dropped")}
+            for f, t in contents.items():
+                add(check_tokens(syms, t.split("\n")))
+    shutil.rmtree(out, ignore_errors=True)
+    kept = first[0] == "stored"
+    return v, {"nt": (not kept) or first[2] != "\n".join(lines), "oc": "wr:%s:%s" % (cfg["spec"], "stored" if kept else "dropped:%s" % first[1])}
 
 
-def contents(tier, min_len=0):
-    return ["".join(t) for t in enumx.strings(KINDS, BOUNDS[tier]["max_lines"], min_len)]
+def lib_cleaner_case():
+    return {"keywords": [KW], "patterns": CC_PATTERNS["plain"], "fqdn": FQ}
+
+
+def _strings(kinds, max_len, min_len=0):
+    return ["".join(t) for t in enumx.strings(kinds, max_len, min_len)]
+
+
+def contents_for(path, cfg, tier):
+    """The content space of one (entry point, configuration): every sequence of <= L lines over the base kinds,
+    plus every sequence of <= L' lines that uses an extra kind (D duplicates, F embedded separators)."""
+    L = BOUNDS[tier]["max_lines"]
+    if path == "cc":
+        core = any(cfg == c for c in CORE_CC)
+        extra_len = (L if core else L - 1) if tier == "thorough" else (L if core else 0)
+        kinds_extra = EXTRA_KINDS
+        base_len = L
+    elif path == "cf":
+        base_len, extra_len, kinds_extra = L, L - 1, EXTRA_KINDS
+    else:
+        sub = cfg["spec"] in SUBPROCESS_SPECS
+        base_len = L - 1 if sub else L
+        extra_len = base_len - 1 if tier == "quick" else base_len
+        kinds_extra = "D" if sub else EXTRA_KINDS
+    out = _strings(BASE_KINDS, base_len)
+    if extra_len > 0:
+        out += [x for x in _strings(BASE_KINDS + kinds_extra, extra_len) if any(k in x for k in kinds_extra)]
+    return out
 
 
 def check_b(case, root=None):
@@ -696,9 +792,11 @@ def check_b(case, root=None):
             shutil.rmtree(own, ignore_errors=True)
 
 
-def b_features(case):
+def b_features(case, info=None):
     cfg = case["cfg"]
-    return {"path": case["path"], "allowlist": cfg.get("allow") is not None}
+    f = {"path": case["path"], "allowlist": cfg.get("allow") is not None}
+    f.update((info or {}).get("features") or {})
+    return f
 
 
 def run_b(unit, tier, res):
@@ -706,8 +804,7 @@ def run_b(unit, tier, res):
     cfg = unit["cfg"]
     root = mkscratch("c10b") if path != "cc" else None
     try:
-        stream = contents(tier, 0 if path == "cc" else (1 if path == "cf" else 0))
-        for syms in enumx.shard(stream, unit["shard"], unit["of"]):
+        for syms in enumx.shard(contents_for(path, cfg, tier), unit["shard"], unit["of"]):
             case = {"part": "B", "path": path, "cfg": cfg, "syms": syms}
             v, info = check_b(case, root)
             res.case(nontrivial=info["nt"], outcome=info["oc"],
@@ -715,10 +812,110 @@ def run_b(unit, tier, res):
             res.stat("B_%s_cases" % path)
             res.maxi("B_max_lines", len(syms))
             for clause, exp, obs in v:
-                res.violation(clause, case, exp, obs, b_features(case))
+                res.violation(clause, case, exp, obs, b_features(case, info))
     finally:
         if root:
             shutil.rmtree(root, ignore_errors=True)
+
+
+# ================================================================================================
+# Part C - the allow-list's key order (built from a set in insights.core.filters) is owned too
+# ================================================================================================
+
+C_KINDS = "aobN"
+C_ALLOWS = [{"ALLOW": 1, "other": 1}, {"ALLOW": 2, "other": 2}, {"ALLOW": 1, "other": 1, "line": 1}]
+CLAUSE_ALLOW = "determinism:one-output-over-allow-list-key-orders"
+FILTER_MODULES = ("insights.core.filters", "insights.cleaner.filters")
+
+
+def c_lines(syms):
+    text = {"a": "ALLOW only", "o": "other only", "b": "ALLOW and other line", "N": "nothing of it"}
+    return ["#T%d# %s" % (i, text[k]) for i, k in enumerate(syms)]
+
+
+def c_case(allow, syms):
+    return {"kind": "allow", "allow": allow, "lines": c_lines(syms)}
+
+
+def check_c(desc, root=None):
+    """One part-C case under two set schedules inside insights.core.filters and/or two hash seeds:
+    the filters are registered in ONE add_filter call on fresh components, the filterable file spec is written."""
+    case = c_case(desc["allow"], desc["syms"])
+    obs = {"where": "insights/core/filters.py:88 (max_matchs builds the allow-list dict in set order) + "
+                    "insights/cleaner/filters.py:22-30 (the first key in dict order is charged)"}
+    via = []
+    if desc.get("schedules"):
+        r1 = lib.run_scheduled(lambda: lib.run_allow(case, root)["out"], FILTER_MODULES, desc["schedules"][0])
+        r2 = lib.run_scheduled(lambda: lib.run_allow(case, root)["out"], FILTER_MODULES, desc["schedules"][1])
+        if r1["out"] != r2["out"]:
+            via.append("set-schedule")
+            obs["schedules"] = {"set_schedule_1": desc["schedules"][0], "output_1": r1["out"],
+                                "set_schedule_2": desc["schedules"][1], "output_2": r2["out"]}
+    if desc.get("seeds"):
+        k1, k2 = desc["seeds"]
+        got = lib.run_children([case], [k1, k2], parallel=2)
+        if got[k1][0]["out"] != got[k2][0]["out"]:
+            via.append("hash-seed")
+            obs["seeds"] = {"seed_1": k1, "output_1": got[k1][0]["out"], "seed_2": k2, "output_2": got[k2][0]["out"]}
+    if not via:
+        return []
+    feats = {"clause_family": "allow-list-key-order", "via": "+".join(via), "keys": len(desc["allow"])}
+    return [(CLAUSE_ALLOW, "the persisted spec is the same for every iteration order of the sets in insights.core.filters "
+                           "and every PYTHONHASHSEED", obs, feats)]
+
+
+def run_c(unit, tier, res):
+    allow = unit["allow"]
+    L = BOUNDS[tier]["max_lines"] - 1
+    root = mkscratch("c10c")
+    try:
+        allsyms = _strings(C_KINDS, L)
+        found = {}
+        for syms in enumx.shard(allsyms, unit["shard"], unit["of"]):
+            case = c_case(allow, syms)
+            runs, complete = lib.explore_scheduled(lambda: lib.run_allow(case, root)["out"], FILTER_MODULES)
+            outs = {}
+            for r in runs:
+                outs.setdefault(_fp(r["out"]), r["choices"])
+            res.evals += len(runs)
+            res.traces += len(runs)
+            res.states += len(runs)
+            res.nontrivial += 1 if len(runs) > 1 and "b" in syms else 0
+            res.stat("C_cases")
+            res.stat("C_set_schedules_executed", len(runs))
+            res.maxi("C_max_set_schedules_of_one_case", len(runs))
+            res.outcomes.add("C:%d-schedules:%d-outputs" % (min(len(runs), 3), len(outs)))
+            if not complete:
+                res.exhaustive = False
+            if len(outs) > 1:
+                res.stat("C_cases_with_more_than_one_output")
+                found[syms] = sorted(outs.values(), key=lambda ch: (len(ch), ch))[:2]
+        # real seeds for the short contents of this shard (one child per seed for the whole batch)
+        short = [x for x in enumx.shard(allsyms, unit["shard"], unit["of"]) if len(x) <= 2]
+        seeds = seeds_for(tier)
+        got = lib.run_children([c_case(allow, x) for x in short], seeds, parallel=8 if tier == "quick" else 4) if short else {}
+        seed_w = {}
+        for i, syms in enumerate(short):
+            outs = {}
+            for k in seeds:
+                outs.setdefault(_fp(got[k][i]["out"]), k)
+            res.evals += len(seeds)
+            res.traces += len(seeds)
+            res.stat("C_seed_executions", len(seeds))
+            res.outcomes.add("C:seeds:%d-outputs" % len(outs))
+            if len(outs) > 1:
+                res.stat("C_cases_with_more_than_one_output_seeds")
+                seed_w[syms] = sorted(outs.values())[:2]
+        for syms in sorted(set(found) | set(seed_w), key=lambda x: (len(x), x)):
+            desc = {"part": "C", "allow": allow, "syms": syms}
+            if syms in found:
+                desc["schedules"] = found[syms]
+            if syms in seed_w:
+                desc["seeds"] = seed_w[syms]
+            for clause, exp, obs, feats in check_c(desc, root):
+                res.violation(clause, desc, exp, obs, feats)
+    finally:
+        shutil.rmtree(root, ignore_errors=True)
 
 
 # ================================================================================================
@@ -728,27 +925,35 @@ def run_b(unit, tier, res):
 def units(tier, seed):
     us = []
     ids = [c["n"] for c in cases_a(tier)]
-    per = 23 if tier == "quick" else 10
+    per = 130 if tier == "quick" else 60
     for i in range(0, len(ids), per):
         us.append({"part": "A", "cases": ids[i:i + per]})
     for cfg in cc_configs():
-        us.append({"part": "B", "path": "cc", "cfg": cfg, "shard": 0, "of": 1})
+        n = 1 if tier == "quick" else 2
+        for s in range(n):
+            us.append({"part": "B", "path": "cc", "cfg": cfg, "shard": s, "of": n})
     n = 2 if tier == "quick" else 6
     for cfg in CF_CONFIGS:
         for s in range(n):
             us.append({"part": "B", "path": "cf", "cfg": cfg, "shard": s, "of": n})
-    n = 8 if tier == "quick" else 24
     for cfg in WR_CONFIGS:
         if tier == "quick" and cfg["allow"] == {"ALLOW": 10000}:
             continue                      # quick keeps the counting allow-list only (the pre-filter spawns grep per case)
+        n = (4 if tier == "quick" else 24)
         for s in range(n):
             us.append({"part": "B", "path": "wr", "cfg": cfg, "shard": s, "of": n})
+    for allow in C_ALLOWS:
+        n = 2 if tier == "quick" else 6
+        for s in range(n):
+            us.append({"part": "C", "allow": allow, "shard": s, "of": n})
     return us
 
 
 def unit_weight(u):
     if u["part"] == "A":
         return 10
+    if u["part"] == "C":
+        return 6
     return {"wr": 5, "cf": 2}.get(u["path"], 1)
 
 
@@ -756,6 +961,8 @@ def run_unit(unit, tier):
     res = Result()
     if unit["part"] == "A":
         run_a(unit, tier, res)
+    elif unit["part"] == "C":
+        run_c(unit, tier, res)
     else:
         run_b(unit, tier, res)
     return res
@@ -765,23 +972,34 @@ def replay(case):
     if case.get("part") == "A":
         vio = check_a(case)
         return [{"clause": c, "case": case, "expected": e, "observed": o, "features": f} for c, e, o, f in vio]
-    v, _ = check_b(case)
-    return [{"clause": c, "case": case, "expected": e, "observed": o, "features": b_features(case)} for c, e, o in v]
+    if case.get("part") == "C":
+        vio = check_c(case)
+        return [{"clause": c, "case": case, "expected": e, "observed": o, "features": f} for c, e, o, f in vio]
+    v, info = check_b(case)
+    return [{"clause": c, "case": case, "expected": e, "observed": o, "features": b_features(case, info)} for c, e, o in v]
 
 
 TECHNIQUE = ("exhaustive enumeration of all n! iteration orders of the obfuscator table (forced hashes, executed through the "
-             "real clean_content, order taken measured) cross-checked under real PYTHONHASHSEED values in child interpreters; "
-             "bounded exhaustive enumeration of line-kind sequences through clean_content, clean_file and provider write/dehydrate")
-LEVEL_TEXT = ("The only scheduling freedom in clean_content is the iteration order of one small set; every one of its <= 720 "
-              "orders is executed for every catalogued competing content, so determinism is decided for these contents over all "
-              "hash seeds, not sampled. Set iteration inside an obfuscator (numbering / replacement order of several host names, "
-              "addresses or keywords on one line) is owned the same way where the code builds the set by calling `set`: every "
-              "permutation of every such set (<= 5 elements) is executed. A sweep of real seeds, comparing the full output text, "
-              "covers whatever else could depend on the seed. Order, "
-              "derivation and emptiness are decided for every content of <= 4 (quick) / <= 5 (thorough) lines over six line kinds "
-              "and every listed configuration, on three entry points.")
-LEVEL_NOTE = ("Trusted: CPython small-set slot order (re-checked per execution); the catalogue of competing contents is hand-made "
-              "(at least one content per pair of obfuscators) - other contents are not covered; seed dependence inside an obfuscator is owned "
-              "in-process only for sets created through the name `set` in the cleaner sub-modules - set displays, comprehensions, "
-              "other containers and other modules are covered by the bounded real-seed sweep (16 / 64 seeds) only; blank = empty "
-              "string as in the code.")
+             "real clean_content, order taken measured), of every set order inside the obfuscators and inside the filter "
+             "registry (schedule-driven set stand-in, stateless DFS), cross-checked under real PYTHONHASHSEED values in child "
+             "interpreters; bounded exhaustive enumeration of line-kind sequences through clean_content (list and string), "
+             "clean_file and the write / dehydrate path of file, command and datasource providers")
+LEVEL_TEXT = ("The scheduling freedom on the cleaning path is the iteration order of a few small hash containers: the obfuscator "
+              "table (every one of its <= 720 orders is executed for every catalogued and generated competing content), sets "
+              "built inside an obfuscator (every permutation of every such set of <= 5 elements) and the allow-list dict that "
+              "insights.core.filters builds from a set (every permutation, through real add_filter -> provider.write). "
+              "Determinism is decided for these contents over all hash seeds, not sampled; a sweep of real seeds, comparing the "
+              "full output text, covers whatever else could depend on the seed. Order, derivation and emptiness are decided for "
+              "every content of <= 4 (quick) / <= 5 (thorough) lines over six base line kinds (plus untagged duplicates and lines "
+              "with embedded str.splitlines separators at one line less) and every listed configuration, on clean_content (list, "
+              "string, same objects twice, same cleaner twice), clean_file and five provider kinds (write twice; content looked at "
+              "before dehydrate).")
+LEVEL_NOTE = ("Trusted: CPython small-set slot order (re-checked per execution). Part A contents: hand catalogue + generated "
+              "families (substrings, every ordered pair of 9 token kinds x glue strings, same-text, substitute words) - other "
+              "contents are not covered; in the quick tier the generated adjacent pairs permute only the <= 4 obfuscators involved. "
+              "Set order is owned in-process only for sets created through the name `set` in insights.cleaner.* sub-modules and "
+              "insights.core.filters - set displays, comprehensions, other containers and other modules are covered by the bounded "
+              "real-seed sweep (16 / 64 seeds) only. Container providers are not executed (no container engine on the SAFE_ENV "
+              "path); they share ContentProvider.write/_clean_content with the covered kinds. Lines with embedded separators are "
+              "not sent through shell_out-based loaders (filter pre-grep, commands): the loader splits them before cleaning - C11's "
+              "subject. blank = empty string as in the code (whitespace-only lines count as non-blank, DESIGN C10).")
